@@ -167,6 +167,15 @@ def run_case(case):
             if len(res.violations) > 6:
                 res.evals = evals
                 return res
+    # an integer index c means the one-column range c..c
+    for c_ in range(0, min(W, 12)):
+        evals += 1
+        one, e1 = call(lambda: f.width_aware_slice(c_))
+        ref, e2 = call(lambda: f.width_aware_slice(slice(c_, c_ + 1)))
+        if (e1 is None) != (e2 is None) or (e1 is None and cells(one) != cells(ref)):
+            res.viol("integer_column_index_differs_from_one_column_slice", column=c_, desc=desc,
+                     got=show(cells(one)) if e1 is None else exc_str(e1), expected=show(cells(ref)) if e2 is None else exc_str(e2))
+            break
     res.evals = evals
     return res
 
